@@ -60,12 +60,12 @@ const cliMakeArg = "1:1:4"
 var cliDestLens = []int{200, 243, 244, 245, 250, 255}
 
 // cliCmdList: the commands drawn from (with weights). Quick: extract, and make, tar (fed through
-// a FIFO), cache and chop at a low rate (a handful of children each per shard); thorough: all seven.
+// a FIFO), cache, chop and verify-index at a low rate (a handful of children each per shard); thorough: all seven.
 func cliCmdList() []string {
 	if hx.Thorough() {
 		return append([]string{"extract", "extract"}, cliCommands...)
 	}
-	return []string{"extract", "extract", "extract", "extract", "make", "tar", "cache", "chop"}
+	return []string{"extract", "extract", "extract", "extract", "make", "tar", "cache", "chop", "verify-index"}
 }
 
 // genCLI decides with fair coin flips (rapid's integer generators are biased to small values)
@@ -832,7 +832,7 @@ func init() {
 	if !cliEnabled() {
 		return
 	}
-	spec.Rule += "; CLI part (only when the driver provides the freshly built CLI): cases = (command in extract, make -s with and without --print-stats and tar -i -s --input-format tar [--tar-add-root] reading a generated tar stream from a FIFO and cache / chop with 0..3 --ignore indexes [quick; make, tar, cache, chop at a low rate], + verify-index, tar -i -s of a directory, untar -i -s [thorough]; the --ignore indexes are, and the index to work on (extract, chop, cache, untar) may be, fetched over HTTP from the harness, so that the held request can be an index fetch of the preparatory phase; SIGINT or SIGTERM; -n 1..4; k; extract: -k or not, destination absent / garbage / partly right, destination base name blob or 200..255 bytes long (near NAME_MAX no temp file fits next to it); target store empty or partly filled); " +
+	spec.Rule += "; CLI part (only when the driver provides the freshly built CLI): cases = (command in extract, make -s with and without --print-stats and tar -i -s --input-format tar [--tar-add-root] reading a generated tar stream from a FIFO and cache / chop with 0..3 --ignore indexes [quick; make, tar, cache, chop, verify-index at a low rate], + tar -i -s of a directory, untar -i -s [thorough]; the --ignore indexes are, and the index to work on (extract, chop, cache, untar) may be, fetched over HTTP from the harness, so that the held request can be an index fetch of the preparatory phase; SIGINT or SIGTERM; -n 1..4; k; extract: -k or not, destination absent / garbage / partly right, destination base name blob or 200..255 bytes long (near NAME_MAX no temp file fits next to it); target store empty or partly filled); " +
 		"the harness serves the chunks over HTTP, holds the k-th request and all behind it, signals the child, releases, and lets the child finish on its own (tar from a FIFO: no request is held; the harness feeds the first `split` bytes of the stream, waits until the child has read them, signals, then feeds the rest and closes; verify-index: signal when the child has opened a 256 MiB sparse file that is corrupt in its last byte); " +
 		"oracle: exit status 0 => output file == blob / every chunk of the index (minus the chunks the --ignore indexes list) valid in the harness store / index written tiles the input (make --print-stats writes no index: every chunk of the reference index of the input valid in the store) / unpacked tree == source; extract without -k and exit status != 0 => destination path unchanged (existence, inode, bytes, mode, mtime). " +
 		"non-trivial CLI case = the signal was sent while a request was held after at least one request had been answered; distinct by (command, signal, k, n, units, -k, prior, answered-before, exit 0?)"
@@ -842,7 +842,7 @@ func init() {
 		"cli:extract:tmpfile-interrupted-mid-flight", "cli:extract:inplace-interrupted-mid-flight",
 		"cli:extract:longname-tmpfile-existing-dest", "cli:make", "cli:make:index:mid-flight", "cli:make:print-stats:mid-flight",
 		"cli:tar:fifo", "cli:tar:fifo:add-root", "cli:tar:fifo:mid-flight",
-		"cli:cache", "cli:cache:mid-flight", "cli:cache:ignore-index-held", "cli:cache:index-held", "cli:chop", "cli:chop:mid-flight", "cli:chop:ignore-index-held", "cli:extract:index-held")
+		"cli:cache", "cli:cache:mid-flight", "cli:cache:ignore-index-held", "cli:cache:index-held", "cli:chop", "cli:chop:mid-flight", "cli:chop:ignore-index-held", "cli:extract:index-held", "cli:verify-index")
 	if hx.Thorough() {
 		for _, cmd := range cliCommands[1:] {
 			if cmd == "make" {
